@@ -292,6 +292,12 @@ impl TransportManager {
         self.connection_limits.verif_sets()
     }
 
+    /// Draw a connection id from the counter the manager shares with its transports (what a
+    /// transport does when it accepts an inbound socket).
+    pub fn verif_alloc_connection_id(&self) -> usize {
+        self.next_connection_id().verif_as_usize()
+    }
+
     pub fn verif_local_peer_id(&self) -> PeerId {
         self.local_peer_id
     }
